@@ -800,6 +800,57 @@ fn c04(r: &mut Rep) {
     }
 }
 
+
+// ---------------------------------------------------------------- c02: enum arms and payloads against an oracle written from the statement
+fn c02(r: &mut Rep) {
+    // named payload member i: (text, binder on the counterpart side or None, From line, Into line or None)
+    let named = |i: usize| -> Vec<(String, Option<String>, String, Option<String>)> { let (x, y) = (format!("x{}", i), format!("y{}", i)); vec![
+        (format!("{}: i32", x), Some(x.clone()), format!("{}:{},", x, x), Some(format!("{}:{},", x, x))),
+        (format!("#[map({})] {}: i32", y, x), Some(y.clone()), format!("{}:{},", x, y), Some(format!("{}:{},", y, x))),
+        (format!("#[ghost({{ 7 }})] {}: i32", x), None, format!("{}:7,", x), None),
+        (format!("#[map(~.clone())] {}: i32", x), Some(x.clone()), format!("{}:{}.clone(),", x, x), Some(format!("{}:{}.clone(),", x, x))),
+        (format!("#[map({}, ~.clone())] {}: i32", y, x), Some(y.clone()), format!("{}:{}.clone(),", x, y), Some(format!("{}:{}.clone(),", y, x))),
+        (format!("#[from(~ + 1)] #[into(~ - 1)] {}: i32", x), Some(x.clone()), format!("{}:{}+1,", x, x), Some(format!("{}:{}-1,", x, x))),
+    ] };
+    // tuple payload member i: (text, bound on the counterpart side, From element, Into element or None)
+    let tuple = |i: usize| -> Vec<(String, bool, String, Option<String>)> { let f = format!("f{}", i); vec![
+        ("i32".into(), true, format!("{},", f), Some(format!("{},", f))),
+        ("#[ghost({ 7 })] i32".into(), false, "7,".into(), None),
+        ("#[map(~.clone())] i32".into(), true, format!("{}.clone(),", f), Some(format!("{}.clone(),", f))),
+        ("#[from(~ + 1)] #[into(~ - 1)] i32".into(), true, format!("{}+1,", f), Some(format!("{}-1,", f))),
+    ] };
+    let mut nseqs: Vec<Vec<(String, Option<String>, String, Option<String>)>> = vec![];
+    for a in named(0) { nseqs.push(vec![a.clone()]); for b in named(1) { nseqs.push(vec![a.clone(), b.clone()]); for c in named(2) { nseqs.push(vec![a.clone(), b.clone(), c]); } } }
+    let mut tseqs: Vec<Vec<(String, bool, String, Option<String>)>> = vec![];
+    for a in tuple(0) { tseqs.push(vec![a.clone()]); for b in tuple(1) { tseqs.push(vec![a.clone(), b.clone()]); for c in tuple(2) { tseqs.push(vec![a.clone(), b.clone(), c]); } } }
+    for (k, ns) in nseqs.iter().enumerate() {
+        let tsq = &tseqs[k % tseqs.len()];
+        if ns.iter().all(|m| m.1.is_none()) || tsq.iter().all(|m| !m.1) { continue; }   // payloads consisting of ghosts only: counterpart variant has another form
+        for rename in [false, true] {
+            let (vq, wq) = if rename { ("Q", "R") } else { ("V", "W") };
+            let va = if rename { "#[map(Q)] " } else { "" };
+            let wa = if rename { "#[map(R)] " } else { "" };
+            let src = format!("#[map(B)]\nenum A {{ {}V {{ {} }}, {}W({}), U }}", va, ns.iter().map(|m| m.0.clone()).collect::<Vec<_>>().join(", "), wa, tsq.iter().map(|m| m.0.clone()).collect::<Vec<_>>().join(", "));
+            r.cases += 1;
+            let out = match expand(&src) { Ok(o) => o, Err(e) => { r.fail(&src, format!("does not expand: {}", e)); continue; } };
+            let is = match impls(&out) { Ok(i) => i, Err(e) => { r.fail(&src, e); continue; } };
+            if is.len() != 4 { r.fail(&src, format!("{} impls instead of 4", is.len())); continue; }
+            let all_named: String = (0..ns.len()).map(|i| format!("x{},", i)).collect();
+            let all_tuple: String = (0..tsq.len()).map(|i| format!("f{},", i)).collect();
+            let from = format!("matchvalue{{B::{}{{{}}}=>A::V{{{}}},B::{}({})=>A::W({}),B::U=>A::U,}}", vq,
+                ns.iter().filter_map(|m| m.1.clone()).map(|b| format!("{},", b)).collect::<String>(), ns.iter().map(|m| m.2.clone()).collect::<String>(),
+                wq, tsq.iter().enumerate().filter(|(_, m)| m.1).map(|(i, _)| format!("f{},", i)).collect::<String>(), tsq.iter().map(|m| m.2.clone()).collect::<String>());
+            let into = format!("matchself{{A::V{{{}}}=>B::{}{{{}}},A::W({})=>B::{}({}),A::U=>B::U,}}", all_named, vq, ns.iter().filter_map(|m| m.3.clone()).collect::<String>(),
+                all_tuple, wq, tsq.iter().filter_map(|m| m.3.clone()).collect::<String>());
+            for i in &is {
+                let got = fn_body_tokens(i).replace(' ', "");
+                let exp = if i.method == "from" { &from } else { &into };
+                if &got != exp { r.fail(&src, format!("[{}] body {} expected {}", i.head, got, exp)); break; }
+            }
+        }
+    }
+}
+
 fn main() {
     panic::set_hook(Box::new(|_| {}));
     let suite = std::env::args().nth(1).unwrap_or_default();
@@ -811,6 +862,7 @@ fn main() {
         "c07" => c07(&mut r),
         "c01" => { c01(&mut r); c01_tuple(&mut r); }
         "c04" => c04(&mut r),
+        "c02" => c02(&mut r),
         "c17" => c17(&mut r),
         _ => { eprintln!("usage: structural c08|c03|c11"); std::process::exit(2); }
     }
